@@ -12,6 +12,8 @@ CONFIGS = {
     ('aperture n=3 min_size=1 contraction/expansion', {'kind': 'aperture', 'n': 3, 'min_size': 1,
                                                        'ops': ['D', 'C', 'Down', 'Up', 'Adv', 'Leave', 'Join'],
                                                        'max_out': 4, 'max_down': 1, 'advs': [1, 3], 'max_notifications': 2}, 7),
+    ('heap n=3, a message object dispatched again while its first dispatch is outstanding',
+     {'kind': 'heap', 'n': 3, 'ops': ['D', 'C', 'R', 'Leave'], 'max_out': 4, 'max_notifications': 1}, 6),
     ('aperture n=3, the wall clock steps backwards (10 s / more than an hour)',
      {'kind': 'aperture', 'n': 3, 'min_size': 1, 'ops': ['D', 'C', 'Adv', 'Back', 'Leave'], 'max_out': 3, 'advs': [1], 'max_notifications': 1}, 6),
     ('heap n=2, requests issued while the balancer is opening, some time out before it opens',
